@@ -267,15 +267,17 @@ func RunMapFs(d *Dir, strat int) RunResult {
 		before[k] = v
 	}
 	res := RunFS(filesystem.NewMapFs(m), strat)
+	var ch []changedFile
 	for k, v := range m {
 		if k == "." {
 			continue
 		}
 		if before[k] != v {
-			d.Put(k, v.Data)
+			ch = append(ch, changedFile{k, v.Data, v.ModTime})
 			res.Writes = append(res.Writes, k)
 		}
 	}
+	d.absorbChanged(ch)
 	for k := range d.Files {
 		if _, ok := m[k]; !ok {
 			delete(d.Files, k)
@@ -284,6 +286,29 @@ func RunMapFs(d *Dir, strat int) RunResult {
 	sort.Strings(res.Writes)
 	d.Tick(10)
 	return res
+}
+
+type changedFile struct {
+	path string
+	data []byte
+	mod  time.Time
+}
+
+// absorbChanged takes over files written with wall-clock mtimes: they get fresh
+// logical times that preserve the order (and the ties) of the real mtimes.
+func (d *Dir) absorbChanged(ch []changedFile) {
+	sort.Slice(ch, func(i, j int) bool {
+		if !ch[i].mod.Equal(ch[j].mod) {
+			return ch[i].mod.Before(ch[j].mod)
+		}
+		return ch[i].path < ch[j].path
+	})
+	for i, c := range ch {
+		if i == 0 || !c.mod.Equal(ch[i-1].mod) {
+			d.Clock++
+		}
+		d.Files[c.path] = &FileRec{Data: append([]byte(nil), c.data...), MTime: d.Clock}
+	}
 }
 
 // Materialise writes the directory to a native path with its logical mtimes.
@@ -310,6 +335,7 @@ func (d *Dir) Materialise(root string) error {
 func (d *Dir) Absorb(root string) ([]string, error) {
 	seen := map[string]bool{}
 	var changed []string
+	var ch []changedFile
 	err := filepath.Walk(root, func(p string, info os.FileInfo, err error) error {
 		if err != nil || info.IsDir() {
 			return err
@@ -326,9 +352,10 @@ func (d *Dir) Absorb(root string) ([]string, error) {
 			return nil
 		}
 		changed = append(changed, rel)
-		d.Put(rel, data)
+		ch = append(ch, changedFile{rel, data, info.ModTime()})
 		return nil
 	})
+	d.absorbChanged(ch)
 	for k := range d.Files {
 		if !seen[k] {
 			delete(d.Files, k)
